@@ -81,4 +81,17 @@ example : localPath [[115]] [47, 97, 47, 46, 46, 47, 46, 46, 47, 101] = .ok [[11
 example : localPath [[115]] [47, 97, 0] = .error .invalidChar := by decide
 example : localPath [[115]] [97] = .error .notAbs := by decide
 
+/-- the spelling of the served directory does not matter: `filepath.Join(root, name)` is `Clean(root + "/" + name)`,
+    and for EVERY absolute spelling of the root (trailing slashes, `/./`, `//`, `sibling/..`) and every mapped name it
+    resolves to the cleaned root followed by the name's segments — so the mapping below the root, and with it every
+    reported href (`Rel` of the two), is the same for all spellings of one directory -/
+theorem C03_root_spelling_irrelevant (spelled : Bytes) (below : List Seg) (hb : ∀ s ∈ below, Normal s) (hne : below ≠ []) :
+    rootedSegs (spelled ++ slash :: joinSegs below) = rootedSegs spelled ++ below :=
+  Lemmas.Path.rootedSegs_join spelled below hb hne
+
+/-- "/srv/dav/", "/srv/./dav", "/srv//dav" and "/srv/x/../dav" are the directory /srv/dav -/
+example : rootedSegs [47, 115, 47, 100, 47] = [[115], [100]] ∧ rootedSegs [47, 115, 47, 46, 47, 100] = [[115], [100]] ∧
+    rootedSegs [47, 115, 47, 47, 100] = [[115], [100]] ∧ rootedSegs [47, 115, 47, 120, 47, 46, 46, 47, 100] = [[115], [100]] := by
+  decide
+
 end GoWebdav.Props.C03
